@@ -524,3 +524,95 @@ Proof.
   - cbn. unfold i64. repeat split; intros;
       repeat match goal with H : _ \/ _ |- _ => destruct H | H : False |- _ => destruct H | H : (_, _) = _ |- _ => subst end; cbn; lia.
 Qed.
+(* ---------- [fits] holds in the all-positive case: the invariant of smooth weighted round-robin bounds the values ---------- *)
+Lemma zsum_ge_len (lz : list Z) a : (forall x, In x lz -> a <= x) -> a * Z.of_nat (length lz) <= zsum lz.
+Proof.
+  induction lz as [|x r IH]; intros H; [cbn; lia|]. rewrite zsum_cons. cbn [length]. rewrite Nat2Z.inj_succ.
+  specialize (IH ltac:(intros y Hy; apply H; right; exact Hy)). specialize (H x ltac:(left; reflexivity)). lia.
+Qed.
+
+Lemma zsum_pos_nonneg (w : nat -> Z) r : (forall i, In i r -> 0 < w i) -> 0 <= zsum (map w r).
+Proof.
+  induction r as [|y r IH]; intros H; [cbn; lia|]. cbn [map]. rewrite zsum_cons.
+  assert (0 < w y) by (apply H; left; reflexivity). specialize (IH ltac:(intros i Hi; apply H; right; exact Hi)). lia.
+Qed.
+Lemma zsum_member_le (w : nat -> Z) ks i : (forall j, In j ks -> 0 < w j) -> In i ks -> w i <= zsum (map w ks).
+Proof.
+  induction ks as [|k0 r IH]; intros H Hi; [destruct Hi|]. cbn [map]. rewrite zsum_cons. destruct Hi as [->|Hi].
+  - pose proof (zsum_pos_nonneg w r ltac:(intros j Hj; apply H; right; exact Hj)). lia.
+  - assert (0 < w k0) by (apply H; left; reflexivity). specialize (IH ltac:(intros j Hj; apply H; right; exact Hj) Hi). lia.
+Qed.
+
+Lemma zsum_app a b : zsum (a ++ b) = zsum a + zsum b.
+Proof. induction a as [|x a IH]; [reflexivity|]. cbn [app]. rewrite !zsum_cons, IH. lia. Qed.
+
+Section fitsInv.
+  Variable geps : list go_endpoint_Endpoint.
+  Variable ep_string : go_endpoint_Endpoint -> list N.
+  Variable ks : list nat.
+  Variable w : nat -> Z.
+  Hypothesis ks_nodup : NoDup ks.
+  Hypothesis ks_ne : ks <> [].
+  Hypothesis w_pos : forall i, In i ks -> 0 < w i.
+  Let l := map (m_s ep_string) geps.
+  Let T := zsum (map w ks).
+  Hypothesis small : (Z.of_nat (length ks) + 2) * T < 4611686018427387904.
+
+  Lemma Inv_bounds k cnt cur c : Inv ks w k cnt cur -> In c cur ->
+    - T < fst c < (Z.of_nat (length ks) + 1) * T /\ 0 < w (snd c) <= T.
+  Proof.
+    intros (A & B & C & D) Ic. pose proof (T_pos ks w ks_ne w_pos) as TP. fold T in TP.
+    assert (Wc : 0 < w (snd c)) by (apply w_pos; rewrite <- A; apply in_map; exact Ic).
+    assert (Lo : forall x, In x cur -> - T < fst x).
+    { intros x Ix. specialize (D x Ix). assert (0 < w (snd x)) by (apply w_pos; rewrite <- A; apply in_map; exact Ix). fold T in D. lia. }
+    assert (WT : w (snd c) <= T) by (unfold T; apply zsum_member_le; [exact w_pos|rewrite <- A; apply in_map; exact Ic]).
+    split; [split; [apply Lo; exact Ic|]|split; assumption].
+    (* the others are above -T each and everything sums to T *)
+    apply in_split in Ic. destruct Ic as (l1 & l2 & ->). unfold sumf in C. rewrite map_app in C. cbn [map] in C.
+    assert (S12 : zsum (map fst l1 ++ fst c :: map fst l2) = zsum (map fst l1) + fst c + zsum (map fst l2)).
+    { rewrite zsum_app, zsum_cons. lia. }
+    rewrite S12 in C. fold T in C.
+    assert (L1 : - T * Z.of_nat (length (map fst l1)) <= zsum (map fst l1)).
+    { apply zsum_ge_len. intros x Hx. apply in_map_iff in Hx. destruct Hx as (y & <- & Hy).
+      assert (- T < fst y) by (apply Lo; apply in_or_app; left; exact Hy). lia. }
+    assert (L2 : - T * Z.of_nat (length (map fst l2)) <= zsum (map fst l2)).
+    { apply zsum_ge_len. intros x Hx. apply in_map_iff in Hx. destruct Hx as (y & <- & Hy).
+      assert (- T < fst y) by (apply Lo; apply in_or_app; right; right; exact Hy). lia. }
+    assert (Len : length ks = (length l1 + S (length l2))%nat) by (rewrite <- A, map_length, app_length; reflexivity).
+    rewrite !map_length in *. nia.
+  Qed.
+
+  Lemma fits_of_Inv n : forall cur k cnt, Inv ks w k cnt cur -> fits geps ep_string T w n cur.
+  Proof.
+    induction n as [|n IH]; intros cur k cnt HI; [exact I|]. cbn [fits].
+    destruct cur as [|c0 r]; [exact I|]. split.
+    - intros c Ic. destruct (Inv_bounds k cnt (c0 :: r) c HI Ic) as [[B1 B2] [B3 B4]].
+      pose proof (T_pos ks w ks_ne w_pos) as TP. fold T in TP. unfold i64. nia.
+    - eapply IH. apply (Inv_step l ks w ks_nodup ks_ne w_pos k cnt c0 r HI).
+  Qed.
+End fitsInv.
+
+(* hence, when every static weight is positive (totalWeight is then the sum of the scaled weights), the rounds theorem
+   needs no overflow hypothesis beyond "(candidates + 2) * total < 2^62" *)
+Theorem tr_BSWL_rounds_positive : forall geps ep_string (pos : list (nat * Z)) cache,
+  let l := map (m_s ep_string) geps in
+  let ks := map fst pos in
+  let T := zsum (map (wof pos) ks) in
+  let cur := map (fun p : nat * Z => (snd p, fst p)) pos in
+  (forall i j, (i < length geps)%nat -> (j < length geps)%nat -> skey (nth i l dummy) = skey (nth j l dummy) -> i = j) ->
+  NoDup ks -> ks <> [] -> (forall i, In i ks -> 0 < wof pos i) -> (forall i, In i ks -> (i < length geps)%nat) ->
+  (Z.of_nat (length ks) + 2) * T < 4611686018427387904 ->
+  Inv ks (wof pos) 0 (fun _ => 0) cur ->
+  tr_BSWL_rounds geps T (map pair_of pos) (map entry_of pos) cache ep_string =
+  Return (cache ++ map Z.of_nat (swrr_rounds (Z.to_nat T) l T (wof pos) cur)).
+Proof.
+  intros geps ep_string pos cache l ks T cur Hs ND Hne Wp Rng Small HI.
+  pose proof (T_pos ks (wof pos) Hne Wp) as TP. fold T in TP.
+  apply tr_BSWL_rounds_model; try assumption; try lia.
+  - assert (E : map snd (map (fun p : nat * Z => (snd p, fst p)) pos) = ks) by (unfold ks; rewrite map_map; reflexivity).
+    unfold cand_ok. split; [|split].
+    + rewrite E. exact ND.
+    + intros c Ic. apply Rng. rewrite <- E. apply in_map. exact Ic.
+    + rewrite map_length. unfold ks in Small. rewrite map_length in Small. nia.
+  - apply (fits_of_Inv geps ep_string ks (wof pos) ND Hne Wp Small (Z.to_nat T) cur 0 (fun _ => 0) HI).
+Qed.
